@@ -344,6 +344,20 @@ def unbound_kind(spec, name, context=""):
     return name
 
 
+def oob_kind(whats):
+    """'integer-beyond-extent' iff every element reported outside the declared extent has non-negative integer coordinates
+    (i.e. it lies beyond the extent of some rank); fractional or negative coordinates give 'other'"""
+    import re as _re
+    for w in whats:
+        m = _re.search(r"\[(.*?)\] (?:exists )?outside the declared extent", w)
+        if not m:
+            continue
+        inner = m.group(1)
+        if "Fraction" in inner or "-" in inner or "." in inner:
+            return "other"
+    return "integer-beyond-extent"
+
+
 def classify(whats):
     """coarse class of a list of differences (used in known-finding signatures)"""
     ks = set()
@@ -396,6 +410,8 @@ def work_equiv(spec, metrics=False, twin=True, targets=None, total=False):
         r["why"] = (r.get("why") or "") + " | concrete replay: " + "; ".join(diffs[:4])
         cls = classify(diffs) if diffs else r.get("kind")
         r["sig"] = dict(spec.get("tags") or {}, engine="E1", cls=cls)
+        if cls == "outside-extent":
+            r["sig"]["oob"] = oob_kind(diffs)
         if cls == "model-error:NameError":
             import re as _re
             m = _re.search(r"NameError: (\w+)(?: @ ([^;|]*))?", " ".join(diffs))
@@ -564,6 +580,8 @@ def work_names(spec, metrics=False):
     cls = "names" if any("holds a tensor" in d or "is not bound" in d or "rank ids" in d for d in diffs) else \
         ("inputs" if any(d.startswith("input") for d in diffs) else classify(diffs))
     sig = dict(spec.get("tags") or {}, engine="E1", cls=cls)
+    if cls == "outside-extent":
+        sig["oob"] = oob_kind(diffs)
     if cls == "model-error:NameError":
         import re as _re
         m = _re.search(r"NameError: (\w+)(?: @ ([^;|]*))?", " ".join(diffs))
